@@ -251,6 +251,14 @@ def exhaustive_cases():
 IDENT = ["bob", "amy", "kim", "zed", "n", "kv", "w"]
 ACTN = ["go", "stop", "cure", "nap", "x1", "flip"]
 MOODS = ["red", "blue", "clear", "m1", "dark"]
+# a mood is an identifier (letters, symbols, marks, `_`, then also numbers): the last four are none
+ODD_MOODS = ["\u00e9t\u00e9", "a<b", "_m", "m_1", "\u2116", "5", "2red", "red-ish", "x.y"]
+# white space for strings.TrimSpace that is not ASCII
+USPACE = ["\u00a0", "\u2003", "\u0085", "\u3000", "\u2028"]
+
+
+def pick_mood(rng):
+    return rng.pick(ODD_MOODS) if rng.chance(1, 12) else rng.pick(MOODS)
 SCCH = "abcdefghXYZ0159"
 
 
@@ -303,11 +311,11 @@ def gen_random_case(rng, size):
             raw = (";" if rng.chance(1, 2) else " ; ").join(segs)
             table.append(("e", c, kind, name, acts, raw))
         if rng.chance(1, 3):
-            table.append(("m", c, "s", rng.pick(MOODS)))
+            table.append(("m", c, "s", pick_mood(rng)))
         if rng.chance(1, 3):
-            table.append(("m", c, "e", rng.pick(MOODS)))
+            table.append(("m", c, "e", pick_mood(rng)))
         if rng.chance(1, 8):
-            table.append(("m", c, rng.pick(["s", "e"]), rng.pick(MOODS)))    # overrides
+            table.append(("m", c, rng.pick(["s", "e"]), pick_mood(rng)))    # overrides
     table = rng.shuffle(table)
     defined = sorted(set(t[1] for t in table
                          if t[0] == "m" or t[2] == "a" or any(r == t[3] for _, r in cast)))
@@ -322,6 +330,11 @@ def gen_random_case(rng, size):
             text = text.replace(" ", "  ", 1)
         if rng.chance(1, 10):
             text = text + " "
+        if rng.chance(1, 10):
+            # Unicode white space at the ends of an act is trimmed like a blank; inside an act it is no scene
+            u = rng.pick(USPACE)
+            k = rng.below(4)
+            text = u + text if k == 0 else text + u if k == 1 else text.replace(" ", u + " ", 1) if k == 2 else text.replace(" ", " " + u, 1)
         story.append(("s", text))
     # edits with literal patterns
     for _ in range(rng.pick([0, 0, 0, 1, 1, 2])):
@@ -603,7 +616,7 @@ def run(tier, seed):
     rep = Report(PROP, tier, seed, "proof")
     rep.assumptions = [
         "Go's regexp (clause grammar, `edit` patterns) is not modelled: an edit is an arbitrary function on the joined storyline; the correspondence uses literal patterns only",
-        "configuration text is valid UTF-8, hence scene shorthands are ASCII letters/digits and strings.TrimSpace trims ASCII white space only",
+        "configuration text is valid UTF-8 (the model works on its code points; scene shorthands are ASCII letters/digits, strings.TrimSpace trims Unicode white space)",
         "the reading of a compiled play as a schedule (a scene starts no sooner than waitUntil and after the scene before it; waitUntil = 0 means no wait) is prompt.go's loop, read by hand",
         "role/cast/action sections are parsed by code outside the model; the model receives the cast (actor, role) and the roles' action names"]
     try:
